@@ -89,7 +89,7 @@ CHECKS = {
              'well-formed chunked / Content-Length / close-delimited bodies are read back exactly (payload, then end of body, nothing beyond the body consumed) for every split into partial-body + recv fragments and every caller read size; '
              'truncated input yields a prefix and never "complete"; arbitrary byte strings give the same result under two deliveries and never touch bytes that were not received; writers emit the reference coding and round-trip through the readers.',
         note='Bounds: payload <= 2 bytes (quick) / 3-4 (thorough), <= 2-3 chunks, arbitrary strings <= 5 (quick) / 7 bytes.  Stub stream (recv returns 1..k bytes), snprintf("%zx") modelled exactly for values < 65536, '
-             'line-buffer storage is exactly the received bytes (the 4096 constant is real).  Header parsing is a separate job family (h_headers.cpp); URL / cookies / websocket are outside.',
+             'line-buffer storage is exactly the received bytes (the 4096 constant is real).  Header parsing (HeadersBase::parse / reset, real headers.cpp): result independent of the bytes behind the message, entries inside the received bytes, <= 12 (16 thorough) bytes; found and fixed (34e2e4b): parse read one byte past the received data; URL / cookies / websocket are outside.',
         technique=TECH, design_ref='DESIGN.md §3 C13'),
     'C12': dict(
         text='RPC serialization on the real rpc/serialize.h + common/iovector.*: six message shapes (int/buffer/string; nested message + array + aligned_buffer; CheckedMessage; fixed_buffer + iovec_array; sorted_map; buffer) - '
@@ -99,7 +99,19 @@ CHECKS = {
         note='crc32c bound to a recording fold (the real table code does not compile with clang and builds its table at run time); IOAlloc default allocators asserted unreachable; pieces are end-aligned in exact-size static objects.  '
              'Found and fixed: slice::anchor unchecked (abe0d44), iovec_array accepted on failed extract (2708f23), sv()/get() on zero-length / mis-sized fields (9592269).  Sorted maps with more than one entry and sorted_map_factory are outside.',
         technique=TECH, design_ref='DESIGN.md §3 C12'),
+    'C16': dict(
+        text='File adaptors vs. a plain reference file: (a) the real AlignedFileAdaptor::pread/pwrite (quick) and preadv2_mutable/pwritev2_mutable + two-operation sequences (thorough) over a logging in-memory underlay (size 1..16, alignment 2/4, align_memory on/off, '
+             'symbolic offset < size and length): same counts, data, final content and size as the reference, every underlay request aligned in offset, length and (when requested) address, bounce buffer freed; '
+             '(b) the real FixedSizeLinearFile<range_split / range_split_power2>, VariableSizeLinearFile and StripeFile pread/pwrite over 2-3 in-memory sub-files (units 2,3,4): counts clipped at the composite end, data in order, final content equal to the flat reference, every sub-file request inside its sub-file.',
+        note='Requests starting at or after EOF are assumed away (outside the property).  malloc/posix_memalign/free and operator new are mapped to exact-size static pools; underlay and sub-files are well-behaved (no faults).  '
+             'Vectored I/O on the composites (VirtualFile::piov_copy) and the const-iovec wrappers are outside.  Found and fixed (1a7642e): out-of-bounds intermediate pointer in AlignedFileAdaptor::pwrite (pointer-arithmetic-only finding).',
+        technique=TECH, design_ref='DESIGN.md §3 C16'),
 }
 
-NOT_APPLICABLE = {p: 'check under construction in this session (see DESIGN.md §3 for the plan); not claimed until its harness passes on the unchanged tree'
-                  for p in ['C%02d' % i for i in range(1, 21)]}
+_PENDING = 'check under construction in this session (see DESIGN.md §3 for the plan); not claimed until its harness passes on the unchanged tree'
+NOT_APPLICABLE = {p: _PENDING for p in ['C%02d' % i for i in range(1, 21)]}
+NOT_APPLICABLE.update({
+    'C08': 'not encoded: WorkPool::impl::main_loop creates photon threads dynamically (thread_create / thread pool / thread_yield_to), runs tasks that block through Delegate<void> function pointers and sits on the '
+           'RingChannel notification protocol; the sequentialiser built here has a fixed set of thread entries and no resumable callees, so the dispatcher protocol (record copied before the slot is reused, call() returns '
+           'after its task) cannot be executed symbolically within this session\'s engine (DESIGN 7.5).  No abstract model was substituted.',
+})
